@@ -12,6 +12,25 @@ import (
 func (p *Program) asciiGuard(fn *ssa.Function, v ssa.Value, at ssa.Instruction) *RangeLoop {
 	tb := p.TB(fn)
 	vKey := tb.Term(v).Key()
+	// a part, a conversion or a case mapping of an ASCII string is ASCII
+	switch x := v.(type) {
+	case *ssa.Slice:
+		if isStringType(x.X.Type()) || isSliceType(x.X) {
+			if l := p.asciiGuard(fn, x.X, at); l != nil {
+				return l
+			}
+		}
+	case *ssa.Convert:
+		if l := p.asciiGuard(fn, x.X, at); l != nil {
+			return l
+		}
+	case *ssa.Call:
+		if caseMappers[calleeName(&x.Call)] && len(x.Call.Args) == 1 {
+			if l := p.asciiGuard(fn, x.Call.Args[0], at); l != nil {
+				return l
+			}
+		}
+	}
 	for _, l := range rangeLoops(fn) {
 		if tb.Term(l.Over).Key() != vKey {
 			continue
